@@ -442,7 +442,7 @@ def _unbind(flags, l):
     return frozenset(x for x in flags if not (isinstance(x, tuple) and len(x) == 3 and x[0] == 'bind' and x[1] == l))
 
 
-def sim_on_stmt(f, bi, i, stmt, st):
+def sim_on_stmt(f, bi, i, stmt, st, stable_fn=None):
     """Shared statement transfer of the fact simulations: constants and per-path bindings of interesting locals."""
     flags, facts = st
     lhs, rv = stmt['lhs'], stmt['rv']
@@ -482,9 +482,20 @@ def sim_on_stmt(f, bi, i, stmt, st):
             e = ('un', 'Not', binds[y]) if neg else binds[y]
             return (flags | {('bind', l, e)}, facts)
     e = f._through(f.rvalue(rv, (bi, i)), (bi, i), 0)
-    if stable_expr(e, f.facts.fns):
+    if stable_expr(e, f.facts.fns) or (stable_fn is not None and _stable_parts(e, f.facts.fns, stable_fn)):
         flags = flags | {('bind', l, e)}
     return (flags, facts)
+
+
+def _stable_parts(e, fns, stable_fn):
+    """e is stable, or a comparison / negation whose unstable operands are accepted by stable_fn"""
+    if stable_expr(e, fns) or stable_fn(e):
+        return True
+    if isinstance(e, tuple) and e and e[0] == 'bin' and e[1] in ('Eq', 'Ne', 'Lt', 'Le', 'Gt', 'Ge', 'BitAnd'):
+        return _stable_parts(e[2], fns, stable_fn) and _stable_parts(e[3], fns, stable_fn)
+    if isinstance(e, tuple) and e and e[0] == 'un':
+        return _stable_parts(e[2], fns, stable_fn)
+    return False
 
 
 def sim_on_term(f, bi, t, st):
@@ -523,7 +534,7 @@ def fact_sim(f, track, init_flags=frozenset(), on_call=None, on_edge_flags=None,
     on_call(bi, term, flags) -> flags ; on_edge_flags(bi, succ, facts_on_edge, flags) -> flags.
     Returns (states_at_block_entry, exits)."""
     def on_stmt(bi, i, stmt, st):
-        return sim_on_stmt(f, bi, i, stmt, st)
+        return sim_on_stmt(f, bi, i, stmt, st, stable_fn)
 
     def on_term(bi, t, st):
         flags, facts = st
@@ -874,14 +885,14 @@ def buf_segments_at(f, bi, argi):
     return segs
 
 
-def value_required_at(f, blocks, keypred, allowed):
+def value_required_at(f, blocks, keypred, allowed, stable_fn=None):
     """Path-sensitive gate: on every path state that reaches each of `blocks` a scalar with keypred(key) was
     established to equal one of `allowed` (whatever the spelling of the test, and also when the test sits in an
     inlined bool helper).  -> (ok, detail)"""
     blocks = list(blocks)
     if not blocks:
         return False, 'no target'
-    at = path_states_at(f, blocks, lambda k: True)
+    at = path_states_at(f, blocks, lambda k: True, stable_fn=stable_fn)
     n = bad = 0
     for b in blocks:
         if not at[b]:
